@@ -302,8 +302,8 @@ def run_S_and_H(pid, tier, seed):
 
 
 reg("C03", ["Props.C03_start_at_most_once", "Props.C03_exactly_once_at_done", "Props.C03_only_selected",
-            "Props.C03_distinct_call_sites", "Props.C11_setup_at_most_once"] + COMMON_S_THEOREMS, run_S_and_H, ASSUME_S)
-reg("C04", ["Props.C04_inflight_le_maxc"] + COMMON_S_THEOREMS,
+            "Props.C03_distinct_call_sites", "Props.C03_distinct_call_sites_flags", "Props.C11_setup_at_most_once"] + COMMON_S_THEOREMS, run_S_and_H, ASSUME_S)
+reg("C04", ["Props.C04_inflight_le_maxc", "Props.C04_resource_decides", "Props.C04_in_flight_sets_match_resource"] + COMMON_S_THEOREMS,
     lambda pid, tier, seed: run_S(pid, tier, seed),
     ASSUME_S + ["OS thread identity is observed by the harness (enter events), not modelled"])
 reg("C05", ["Props.C05_sequential_exclusive"] + COMMON_S_THEOREMS,
@@ -323,7 +323,7 @@ reg("C06", ["Props.C06_best_ready", "Props.C07_cp_is_own_plus_distinct_descendan
     None, ASSUME_S)
 reg("C08", ["Props.C08_partial", "Props.C08_mixed_witness", "TM.w_run", "TM.w_blocks"] + COMMON_S_THEOREMS,
     lambda pid, tier, seed: run_S(pid, tier, seed), ASSUME_S)
-reg("C09", ["Props.C09_bound", "Props.C09_progress", "TM.M_step", "TM.rank_decreases"] + COMMON_S_THEOREMS,
+reg("C09", ["Props.C09_bound", "Props.C09_progress", "TM.M_step", "TM.rank_decreases", "Props.C09_traced_dag_terminates"] + COMMON_S_THEOREMS,
     lambda pid, tier, seed: run_S(pid, tier, seed), ASSUME_S)
 def invalid_argument_calls():
     """C14 'a call raises only because of a node failure or invalid arguments': the two invalid-argument
@@ -554,6 +554,7 @@ def run_G(pid, tier, seed):
                     model_static = None
                 except ValueError:
                     model_static = ("VALUEERROR",)
+            Ppos = [pos["n%d" % i] for i in range(sc["n"])]
             if model_static is not None:
                 if real != model_static:
                     if real[0] == "SEL":
@@ -562,8 +563,13 @@ def run_G(pid, tier, seed):
                         failures.append(Failure("correspondence", "G-sel-alias", sc, dict(case=case, real=real), slice_="G"))
                 else:
                     stats["valueerrors"] += 1
+                # the Lean alias resolution must refuse it too (GM.resolveAll = none)
+                qlines.append(G.asel_query(R, X, T, dbg, Ppos))
+                meta.append(("alias-static", dict(real=real, case=case)))
                 continue
-            qlines.append(G.sel_query(Rr, Xr, Tr, dbg))
+            # aliases go to the model as written (node reference / string): GM.resolveAll resolves them
+            qlines.append(G.asel_query(R, X, T, dbg, Ppos))
+            stats["alias_selections"] = stats.get("alias_selections", 0) + 1
             meta.append(("sel", dict(real=real, case=case, resolved=(Rr, Xr, Tr), dbg=dbg,
                                      debug_nodes=[x for x in range(len(ids_)) if debug[x]])))
             # ---- monitors independent of the Lean model
@@ -605,7 +611,8 @@ def run_G(pid, tier, seed):
             elif real[0] == "VALUEERROR":
                 stats["valueerrors"] += 1
         G.set_debug(False)
-        blocks.append(G.graph_block("q%s" % k, preds, prio0, debug, qlines))
+        blocks.append(G.graph_block("q%s" % k, preds, prio0, debug, qlines,
+                                    names=G.scenario_names(sc, ids_, [pos["n%d" % i] for i in range(sc["n"])])))
         queries.append(("q%s" % k, meta, sc))
         if len(samples) < 3:
             samples.append(dict(scenario=sc, protocol=blocks[-1].splitlines()))
@@ -626,6 +633,10 @@ def run_G(pid, tier, seed):
                 if model != m["real"] and pid in ("C06", "C07"):
                     failures.append(Failure("correspondence", "G-cp(%s)" % m["where"], sc,
                                             dict(model=model, real=m["real"]), slice_="G"))
+            elif kind == "alias-static":
+                if a[0] != "VALUEERROR":
+                    failures.append(Failure("correspondence", "G-alias-resolution(model accepts an unknown alias)", sc,
+                                            dict(case=m["case"], model=a, real=m["real"]), slice_="G"))
             else:
                 real = m["real"]
                 if a[0] == "OUTOFSCOPE":
@@ -759,7 +770,7 @@ reg("C07", ["Props.C07_cp_is_own_plus_distinct_descendants", "GM.C07_cp_order_in
             "GM.descAll_nodup", "Props.C07_pinned_counts_paths", "GM.C07_pinned_order_dependent",
             "Props.C07_next_pick_is_determined", "Props.C07_pick_unique"],
     run_G, ASSUME_G)
-reg("C12", ["GM.C12_closure", "Props.C12_selection_is_closure", "GM.selectNodes_none", "GM.mem_descAll_iff", "Props.C12_restriction_keeps_values"], run_G, ASSUME_G)
+reg("C12", ["GM.C12_closure", "Props.C12_selection_is_closure", "GM.selectNodes_none", "GM.mem_descAll_iff", "Props.C12_restriction_keeps_values", "Props.C12_alias_tag_wins", "Props.C12_alias_id", "Props.C12_alias_unknown_refused", "Props.C12_alias_list_is_union", "Props.C12_alias_list_refused_iff"], run_G, ASSUME_G)
 
 
 # ---------------------------------------------------------------------------------------------
@@ -888,7 +899,11 @@ def run_V(pid, tier, seed):
     cases = {}
     tables = {}
     text = []
+    hung = False
     for k, mod, rng in module_stream(seed, n, pid):
+        if hung:
+            stats["stopped_after_first_hang"] = True
+            break
         stats["programs"] += 1
         f = prog_features(mod)
         for key in ("nested", "flagged", "dagflag", "unpack", "defaults"):
@@ -905,6 +920,9 @@ def run_V(pid, tier, seed):
             stats["async_runs"] += int(info["is_async"])
             stats["config_reloads"] += int(info["config"] is not None)
             reals.append((r, info))
+            if r[0] == "HANG":
+                hung = True
+                break       # a hang is a counterexample already; every further run would cost the full time-out
         try:
             import slice_v as _V
             tdags = _V.build_real(mod, {}, 1, False)
@@ -1218,7 +1236,7 @@ def with_malformed(run, kinds):
 
 reg("C13", ["Props.C13_pulled_debug_has_inputs", "Props.C13_flag_off_no_debug", "Props.C13_debug_nodes_never_influence", "Props.C12_selection_is_closure"],
     with_malformed(run_G, ["normal-on-debug"]), ASSUME_G)
-reg("C11", ["Props.C11_setup_at_most_once", "Props.C11_first_value_kept", "VM.not_entered_of_res"], with_malformed(run_H, ["setup-on-normal", "setup-on-arg"]), ASSUME_H)
+reg("C11", ["Props.C11_setup_at_most_once", "Props.C11_first_value_kept", "VM.not_entered_of_res", "Props.C11_runs_only_what_selection_needs", "Props.C11_later_executions_see_first_value"], with_malformed(run_H, ["setup-on-normal", "setup-on-arg"]), ASSUME_H)
 def run_H_and_composeprobe(pid, tier, seed):
     cov, fs, _ = run_H(pid, tier, seed)
     covc, fsc, _ = run_C(pid, tier, seed)
@@ -1229,7 +1247,7 @@ def run_H_and_composeprobe(pid, tier, seed):
     return cov, fs + keep, None
 
 
-reg("C15", ["Props.C15_no_state_but_setup", "VM.applyOp_res_nonsetup", "Props.C01_core"], run_H_and_composeprobe, ASSUME_H)
+reg("C15", ["Props.C15_no_state_but_setup", "Props.C15_next_call_depends_only_on_setup_state", "Props.C15_failed_operation_is_a_noop", "VM.applyOp_res_nonsetup", "Props.C01_core"], run_H_and_composeprobe, ASSUME_H)
 reg("C18", ["Props.C18_restart_same", "Props.C18_restart_runs_only_uncached", "VM.denote_seeded"], run_H, ASSUME_H)
 
 
@@ -1254,7 +1272,12 @@ def run_C(pid, tier, seed):
         d = C.build(sc)
         n = sc["n"]
         stats["dags"] += 1
-        probe_before = C.run_sync(d(1, 2))
+        def probe():
+            try:
+                return ("OK", C.run_sync(d(1, 2)))
+            except BaseException as e:  # noqa: BLE001   (the original itself may raise on these arguments)
+                return ("RAISES", type(e).__name__)
+        probe_before = probe()
         qlines, cases = [], []
         small_exhaustive = tier == "thorough" and n <= 3
         pairs = []
@@ -1275,6 +1298,13 @@ def run_C(pid, tier, seed):
                     ins = "ellipsis"
                 else:
                     ins = rng.sample(list(range(n)) + [n, n + 1], rng.randint(0, min(3, n + 2)))
+                # directed: make the producer of some node's activation flag an INPUT and keep that node as an output
+                flagged = [i for i in range(n) if sc["specs"][i]["flag"] is not None]
+                if flagged and ins != "ellipsis" and rng.random() < 0.35:
+                    o = rng.choice(flagged)
+                    f_ = sc["specs"][o]["flag"]
+                    outs = [o] + [x for x in outs if x != o and x != f_][:1]
+                    ins = [f_] + [x for x in ins if x not in (f_, o) and x not in outs][:2]
                 pairs.append((ins, outs))
         for ins, outs in pairs:
             if ins != "ellipsis" and set(ins) & set(outs):
@@ -1285,6 +1315,11 @@ def run_C(pid, tier, seed):
                 ins = [n, n + 1]
                 stats["ellipsis"] += 1
             vals = [rng.choice([(3, 4), ("a", "b"), (1, (2, 3)), (0, 5), 1, 0, None, "xy", True]) for _ in ins]
+            # an input that is read through an index as somebody's flag: parts and whole of mixed truthiness
+            for q_, i_ in enumerate(ins):
+                if any(s_["flag"] == i_ and s_.get("flagidx") is not None for s_ in sc["specs"]) and rng.random() < 0.7:
+                    vals[q_] = rng.choice([(0, 5), (5, 0), (0, 0), (3, 4), (None, 1)])
+                    stats["indexed_flag_inputs"] = stats.get("indexed_flag_inputs", 0) + 1
             # aliases
             ambiguous = False
 
@@ -1336,7 +1371,7 @@ def run_C(pid, tier, seed):
                 qlines.append("Q %d %s %d %s %s" % (len(outs), " ".join(map(str, outs)), len(ins), " ".join(map(str, ins)),
                                                     " ".join(C.enc(v) for v in vals)))
                 cases.append((case, real, want))
-        probe_after = C.run_sync(d(1, 2))
+        probe_after = probe()
         stats["original_probes"] += 1
         if probe_before != probe_after:
             failures.append(Failure("counterexample", "compose-changed-the-original", sc,
@@ -1487,7 +1522,7 @@ ASSUME_T = [
     "setup nodes have run before a DAG is shared between threads (excluded by the statement)",
     "OS thread identity / scheduling is the runtime's; the harness serialises the scripted actions with a condition variable",
 ]
-reg("C16", ["Props.C16_owner_safe", "Props.C16_pinned_witness", "TH.C16_owner_same_schedule", "Props.C17b_concurrent_awaits_isolated"], run_T, ASSUME_T)
+reg("C16", ["Props.C16_owner_safe", "Props.C16_pinned_witness", "TH.C16_owner_same_schedule", "Props.C17b_concurrent_awaits_isolated", "Props.C16_concurrent_calls_isolated"], run_T, ASSUME_T)
 
 
 # ---------------------------------------------------------------------------------------------
@@ -1535,5 +1570,5 @@ def run_A(pid, tier, seed):
     return coverage, failures, None
 
 
-reg("C17", ["Props.C17b_concurrent_awaits_isolated", "VM.prun_proj", "Props.C17c_partial", "Props.C17c_mixed_witness", "Props.C01_core", "Props.acceptor_sound"], run_A,
+reg("C17", ["Props.C17b_concurrent_awaits_isolated", "VM.prun_proj", "Props.C17c_partial", "Props.C17c_mixed_witness", "Props.C01_core", "Props.acceptor_sound", "Props.C17a_flavours_agree"], run_A,
     ASSUME_V + ["the event loop's own fairness is trusted (asyncio)", "both flavours run the same coroutine async_execute (DAG drives it with asyncio.run): flavour equality is definitional in the model, the content is in the tie"])
